@@ -138,6 +138,7 @@ type Ctx struct {
 	Deadline time.Time
 	cur      []byte // mmap'ed current-case region (worker only)
 	Start    time.Time
+	skip     map[string]bool
 }
 
 func (c *Ctx) Thorough() bool { return c.Tier == "thorough" }
@@ -173,6 +174,24 @@ func (c *Ctx) OverMemory() bool {
 		limit = v
 	}
 	return pages*int64(os.Getpagesize()) > limit<<20
+}
+
+// Skipped reports whether the driver put this case on the worker's skip list because an
+// earlier start of the shard died on it (the death itself is attributed and reported by the
+// driver): the worker goes on with the rest of its shard.
+func (c *Ctx) Skipped(desc string) bool {
+	if c.skip == nil {
+		c.skip = map[string]bool{}
+		if p := os.Getenv("VERIF_SKIP_FILE"); p != "" {
+			b, _ := os.ReadFile(p)
+			for _, l := range strings.Split(string(b), "\n") {
+				if l != "" {
+					c.skip[l] = true
+				}
+			}
+		}
+	}
+	return len(c.skip) > 0 && c.skip[desc]
 }
 
 // SetCase records the case about to run so that a crash can be attributed to it.
@@ -473,16 +492,52 @@ func drive(ck *Check, ctx *Ctx, secs int) int {
 		grace = g
 	}
 	wd := time.Duration(secs)*time.Second + grace
+	// A worker that dies on a case is started again with that case on its skip list (checks
+	// consult Ctx.Skipped before a case that can kill the process), so that the rest of its
+	// shard is still explored; every death is attributed and confirmed below.
+	deaths := make([][]workerResult, n)
 	for i := 0; i < n; i++ {
 		wg.Add(1)
 		go func(i int) {
 			defer wg.Done()
-			results[i] = spawn(ck, ctx, i, n, nil, wd)
+			var skips []string
+			for attempt := 0; ; attempt++ {
+				var env []string
+				if len(skips) > 0 {
+					sp := filepath.Join(Root, ".build", "run", fmt.Sprintf("%s-skip-%d.txt", ck.ID, i))
+					os.WriteFile(sp, []byte(strings.Join(skips, "\n")), 0o644)
+					env = []string{"VERIF_SKIP_FILE=" + sp}
+				}
+				wr := spawn(ck, ctx, i, n, env, wd)
+				again := false
+				for _, s := range skips {
+					again = again || s == wr.crash
+				}
+				if wr.rep != nil || wr.crash == "" || strings.HasPrefix(wr.crash, "replay:") || attempt >= 8 || again || ctx.Expired() {
+					results[i] = wr
+					return
+				}
+				deaths[i] = append(deaths[i], wr)
+				skips = append(skips, wr.crash)
+			}
 		}(i)
 	}
 	wg.Wait()
 	infra := 0
-	for i, wr := range results {
+	type shardResult struct {
+		workerResult
+		shard     int
+		recovered bool // a later start of the same shard completed with this case skipped
+	}
+	var flat []shardResult
+	for i := range results {
+		for _, d := range deaths[i] {
+			flat = append(flat, shardResult{d, i, results[i].rep != nil})
+		}
+		flat = append(flat, shardResult{results[i], i, false})
+	}
+	for _, sr := range flat {
+		i, wr := sr.shard, sr.workerResult
 		if wr.rep != nil {
 			total.Merge(wr.rep)
 			if os.Getenv("VERIF_VERBOSE") != "" && wr.tail != "" {
@@ -492,7 +547,9 @@ func drive(ck *Check, ctx *Ctx, secs int) int {
 		}
 		// worker died: attribute to the recorded case, re-run that case 5x alone.
 		fmt.Printf("worker %d died: %v\n  case: %.300s\n  output tail:\n%s\n", i, wr.err, wr.crash, lastLines(wr.tail, 25))
-		total.Exhaustive = false
+		if !sr.recovered {
+			total.Exhaustive = false
+		}
 		if wr.crash == "" || strings.HasPrefix(wr.crash, "replay:") || ck.Replay == nil {
 			if strings.Contains(wr.err.Error(), "signal: killed") && !strings.Contains(wr.err.Error(), "watchdog timeout") {
 				total.Notes = append(total.Notes, fmt.Sprintf("worker %d was killed from outside (SIGKILL) before announcing a case; shard incomplete", i))
@@ -516,12 +573,21 @@ func drive(ck *Check, ctx *Ctx, secs int) int {
 		b, _ := json.Marshal(v)
 		os.WriteFile(tmp, b, 0o644)
 		fails := 0
+		var cmu sync.Mutex
+		var cwg sync.WaitGroup
 		for k := 0; k < 5; k++ {
-			rr := spawn(ck, ctx, 100+i, 1, []string{"VERIF_REPLAY_CASE=" + tmp}, 3*time.Minute)
-			if rr.rep == nil || len(rr.rep.Violations) > 0 {
-				fails++
-			}
+			cwg.Add(1)
+			go func(k int) {
+				defer cwg.Done()
+				rr := spawn(ck, ctx, 1000+i*8+k, 1, []string{"VERIF_REPLAY_CASE=" + tmp}, 3*time.Minute)
+				if rr.rep == nil || len(rr.rep.Violations) > 0 {
+					cmu.Lock()
+					fails++
+					cmu.Unlock()
+				}
+			}(k)
 		}
+		cwg.Wait()
 		if fails == 5 {
 			v.Observed = "died in 5 of 5 isolated re-runs: " + lastLines(wr.tail, 6)
 			total.Violate(v)
